@@ -114,6 +114,7 @@ class Gen:
         self.kinds = []            # static kind guess per pool id
         self.used = []             # pool ids that were compiled / iterated (bias)
         self.focus = None
+        self.sticky = 0            # number of following builds that must use the focus object
         self.pal = cc.palette(rng)
 
     def leaf(self):
@@ -238,8 +239,9 @@ class Gen:
                              ["new", "AtLeastAtMost", w, 1, 3], ["op", "+", ["lit", "a"], w], ["new", "Capture", w],
                              ["new", "FollowedBy", ["lit", "a"], w]]), "general"
         a = self.operand()
-        if self.focus is not None and r.random() < 0.45:
+        if self.focus is not None and (self.sticky > 0 or r.random() < 0.45):
             a = ["ref", self.focus]                       # keep working on one object: histories on a shared operand
+            self.sticky = max(0, self.sticky - 1)
         elif a[0] == "ref" and r.random() < 0.5:
             self.focus = a[1]
         same = a if r.random() < 0.25 else None          # the same object twice in one call
@@ -287,6 +289,8 @@ class Gen:
                 return ["call", "capture", a] + ([name] if name else []), "general"
             if g < 0.85:
                 ci = [r.random() < 0.5] if r.random() < 0.5 else []
+                if ci == [True] and a[0] == "ref":
+                    self.focus, self.sticky = a[1], 2     # a flagged group of x, then x again as an operand
                 return (["new", "Group", a] + ci if sp == "class" else ["call", "group", a] + ci), "general"
             if g < 0.93:
                 return ["new", "Backreference", r.choice(["g1", "g2", 1, 7, 12])], "general"
